@@ -274,6 +274,15 @@ func (s *Solver) Check(tb *TB, extra []*Term, wantModel []*Term) (Verdict, map[*
 		}
 	}
 	s.raw("(pop 1)")
+	if v == Unknown && os.Getenv("SYMGO_DEBUG") != "" {
+		for _, e := range extra {
+			str := e.String()
+			if len(str) > 600 {
+				str = str[:600]
+			}
+			fmt.Fprintf(os.Stderr, "UNKNOWN QUERY (%.1fs): %s\n", time.Since(t0).Seconds(), str)
+		}
+	}
 	switch v {
 	case Sat:
 		s.nSat++
